@@ -427,6 +427,9 @@ pub struct ReplyOracle {
     last_sol_seq: Option<u8>,
     last_request_seq: Option<u8>,
     last_read_seq: Option<u8>,
+    /// sequence number of a READ that arrived while an unsolicited response awaited its confirmation and has not been answered
+    /// yet: it is answered when that wait ends, in a later step, unless another request supersedes it
+    deferred_read_seq: Option<u8>,
     unsol_pending: bool,
     /// a READ that must be rejected and was deferred (unsolicited confirm wait): (sequence number, why, step it was sent in)
     deferred_reject: Option<(u8, &'static str, usize)>,
@@ -448,6 +451,7 @@ impl ReplyOracle {
             last_sol_seq: None,
             last_request_seq: None,
             last_read_seq: None,
+            deferred_read_seq: None,
             unsol_pending: false,
             deferred_reject: None,
             nontrivial: false,
@@ -546,6 +550,7 @@ impl Oracle for ReplyOracle {
             self.last_sol_seq = None;
             self.last_request_seq = None;
             self.last_read_seq = None;
+            self.deferred_read_seq = None;
             self.unsol_pending = false;
             self.deferred_reject = None;
         }
@@ -568,6 +573,11 @@ impl Oracle for ReplyOracle {
             .map(|s| s.src == self.master && s.dest == self.own)
             .unwrap_or(false);
         let was_unsol_pending = self.unsol_pending;
+        // a FIR response that carries the number of a CONFIRM may be the deferred READ being answered, not a reply to the confirm
+        let answers_deferred_read = match (&sent, self.deferred_read_seq) {
+            (Some(s), Some(d)) => s.bytes.len() >= 2 && s.bytes[0] & 0x0F == d,
+            _ => false,
+        };
         if let Some(s) = &sent {
             if from_master_unicast
                 && s.bytes.len() >= 2
@@ -575,6 +585,8 @@ impl Oracle for ReplyOracle {
                 && s.bytes[1] != refapp::FUNC_CONFIRM
             {
                 self.last_request_seq = Some(s.bytes[0] & 0x0F);
+                // (any new request supersedes a deferred READ)
+                self.deferred_read_seq = None;
                 if s.bytes[1] == refapp::FUNC_READ {
                     self.last_read_seq = Some(s.bytes[0] & 0x0F);
                 }
@@ -718,7 +730,11 @@ impl Oracle for ReplyOracle {
                 }
                 if ctrl.fir {
                     let ok = Some(ctrl.seq) == self.last_request_seq
-                        || Some(ctrl.seq) == self.last_read_seq;
+                        || Some(ctrl.seq) == self.deferred_read_seq;
+                    if Some(ctrl.seq) == self.deferred_read_seq {
+                        self.deferred_read_seq = None;
+                        self.bump("probe.deferred_read_answered_in_a_later_step");
+                    }
                     if !ok {
                         return Some(Violation::new(
                             "C12/solicited-sequence",
@@ -747,6 +763,22 @@ impl Oracle for ReplyOracle {
             }
         }
 
+        // a READ that went unanswered while an unsolicited response was (or came to be) awaiting its confirmation is deferred
+        if let (Some(s), true) = (&sent, from_master_unicast) {
+            let b = &s.bytes;
+            if b.len() >= 2 && b.len() <= self.rx && b[1] == refapp::FUNC_READ {
+                let seq = b[0] & 0x0F;
+                let unsol_began = step
+                    .received
+                    .iter()
+                    .any(|rx| rx.bytes.len() >= 2 && rx.bytes[1] == refapp::FUNC_UNSOL_RESPONSE);
+                let answered = sol_in_step.iter().any(|r| r.bytes[0] & 0x8F == 0x80 | seq);
+                if (was_unsol_pending || unsol_began) && !answered {
+                    self.deferred_read_seq = Some(seq);
+                }
+            }
+        }
+
         // --- the request of this step ---
         let mut verdict = 0u64;
         if let (Some(s), true) = (&sent, from_master_unicast) {
@@ -767,7 +799,7 @@ impl Oracle for ReplyOracle {
                     if b.len() == 2 && !replies.is_empty() && !matches!(step.op, Op::Repeat) {
                         let r = replies[0];
                         // a FIR response with this sequence number may legitimately be a deferred READ being answered
-                        if Some(seq) != self.last_read_seq {
+                        if !answers_deferred_read {
                             return Some(Violation::new(
                                 "C12/confirm-answered",
                                 "",
